@@ -17,8 +17,8 @@ import (
 )
 
 type stats struct {
-	syncImports, goStmts, resumes, ctors, wallNow, etcdLeader, rangeChan int
-	unhandled                                                            []string
+	syncImports, goStmts, resumes, ctors, wallNow, etcdLeader, rangeChan, diskWrites int
+	unhandled                                                                        []string
 }
 
 const (
@@ -400,6 +400,38 @@ func (r *rewriter) rewriteEtcdLeader() {
 	}
 }
 
+// rewriteDiskWrites (R6) makes every write of the leveldb-backed kv a scheduling and fault point:
+//
+//	if err := simdisk.BeforeWrite("<method>"); err != nil { return err }
+//
+// is prepended to (*LeveldbKV).Save / Remove / SaveRegions.
+func (r *rewriter) rewriteDiskWrites() {
+	if r.rel != "server/kv/levedb_kv.go" {
+		return
+	}
+	for _, d := range r.file.Decls {
+		fd, ok := d.(*ast.FuncDecl)
+		if !ok || fd.Recv == nil || fd.Body == nil {
+			continue
+		}
+		switch fd.Name.Name {
+		case "Save", "Remove", "SaveRegions":
+		default:
+			continue
+		}
+		pre := &ast.IfStmt{
+			Init: &ast.AssignStmt{Lhs: []ast.Expr{ast.NewIdent("err")}, Tok: token.DEFINE, Rhs: []ast.Expr{
+				&ast.CallExpr{Fun: sel("simdisk", "BeforeWrite"), Args: []ast.Expr{&ast.BasicLit{Kind: token.STRING, Value: strconv.Quote(fd.Name.Name)}}}}},
+			Cond: &ast.BinaryExpr{X: ast.NewIdent("err"), Op: token.NEQ, Y: ast.NewIdent("nil")},
+			Body: &ast.BlockStmt{List: []ast.Stmt{&ast.ReturnStmt{Results: []ast.Expr{ast.NewIdent("err")}}}},
+		}
+		fd.Body.List = append([]ast.Stmt{pre}, fd.Body.List...)
+		r.need(simdiskPath, "simdisk")
+		r.st.diskWrites++
+		r.changed = true
+	}
+}
+
 func (r *rewriter) rewriteImports() {
 	// R1: "sync" -> ssync (package name sync)
 	for _, im := range r.file.Imports {
@@ -514,6 +546,7 @@ func rewriteFile(path, rel string, st *stats) error {
 	}
 	r.rewriteCalls()
 	r.rewriteEtcdLeader()
+	r.rewriteDiskWrites()
 	if before.syncImports == st.syncImports && before.goStmts == st.goStmts && before.resumes == st.resumes &&
 		before.ctors == st.ctors && before.wallNow == st.wallNow && before.etcdLeader == st.etcdLeader && !r.changed {
 		return nil
